@@ -84,4 +84,55 @@ def specStep (rate : Int) (sp : Spec) (now pts : Int) (out ref' pts' : Int) : Sp
     else none
   (sp', err)
 
+/-! ### round 2: the property on what the server hands on (integration sites of the estimator)
+
+The estimator is used at two places: `stream.subStreamFormat.writeUnitInner` (paths with a replaced NTP, in
+particular always-available paths, where the frame timestamp handed on is `u.PTS + ptsOffset`) and
+`hls.ToStream` (frame timestamp handed on = track pts rescaled to the RTP clock rate).  There the anchor is
+not observable; the property is evaluated on consecutive *emitted* frames `(now, pts, ntp)`, `pts` in the
+clock rate `rOut` of the outgoing format:
+ * bounds: `now - 5 s ≤ ntp ≤ now`;
+ * steady: if frame timestamps advance (`pts ≥` previous `pts`) and the previous absolute timestamp advanced
+   by the scaled frame-timestamp difference, `p`, lies in `[now - 5 s + tol, now + tol]` (the wall clock ran
+   steadily), then `|ntp - p| ≤ 2·tol`.  `tol` absorbs the truncations (a few ns, plus one tick of each clock
+   where the timestamp is rescaled).  Checked only while every timestamp seen is within ±2^32 ticks and the
+   rate is in `1 … 2^32` (exact range of the scaling). -/
+structure Obs where
+  last : Option (Int × Int) := none   -- (ntp, pts) of the previous emitted frame
+  small : Bool := true
+
+def ceilDiv (a b : Int) : Int := (a + b - 1) / b
+
+/-- tolerance in ns: truncations + one tick of the outgoing clock and one of the estimator's clock -/
+def obsTol (rOut rEst : Int) : Int :=
+  if rOut = rEst then 4 else 4 + ceilDiv nsPerSec rOut + ceilDiv nsPerSec rEst
+
+def ptsSmall (pts : Int) : Bool := decide (-(2 ^ 32) ≤ pts ∧ pts ≤ 2 ^ 32)
+
+def obsStep (rOut tol : Int) (o : Obs) (extraSmall : Bool) (now pts ntp : Int) : Obs × Option String :=
+  let small := o.small && ptsSmall pts && extraSmall
+  let o' : Obs := { last := some (ntp, pts), small := small }
+  let err : Option String :=
+    if ntp > now then some "absolute timestamp is later than the wall clock"
+    else if ntp < now - maxDiff then some "absolute timestamp is more than 5 s behind the wall clock"
+    else match o.last with
+      | none => none
+      | some (pn, pp) =>
+        if small = true ∧ rateOK rOut = true ∧ pp ≤ pts then
+          let p := pn + exact (pts - pp) nsPerSec rOut
+          if now - maxDiff + tol ≤ p ∧ p ≤ now + tol then
+            (if ntp - p ≤ 2 * tol ∧ p - ntp ≤ 2 * tol then none
+             else some "wall clock steady and frame timestamps advance, but consecutive absolute timestamps do not differ by the frame timestamp difference")
+          else none
+        else none
+  (o', err)
+
+/-- run the observable spec over a trace of emitted frames; first violation (index, reason) -/
+def obsRun (rOut tol : Int) : Obs → Nat → List (Bool × Int × Int × Int) → Option (Nat × String)
+  | _, _, [] => none
+  | o, i, (sm, now, pts, ntp) :: rest =>
+    match obsStep rOut tol o sm now pts ntp with
+    | (_, some e) => some (i, e)
+    | (o', none) => obsRun rOut tol o' (i + 1) rest
+
 end MtxVerif.C25
